@@ -364,6 +364,54 @@ func genTables(repo, outPath string) error {
 		}
 		b.WriteString("].\n\n")
 	}
+	// alternative renderings: a MarshalJSON that encodes a literal of an anonymous struct type.  For each one, the members the
+	// type declares (Go name, JSON name) and the Go names the literal fills.
+	b.WriteString("Definition gen_inline_structs : list (string * (list (string * string) * list string)) := [\n")
+	firstInline := true
+	for _, k := range mkeys {
+		m := t.methods[k]
+		if m.Decl.Name.Name != "MarshalJSON" || m.Decl.Body == nil {
+			continue
+		}
+		ast.Inspect(m.Decl.Body, func(n ast.Node) bool {
+			cl, ok := n.(*ast.CompositeLit)
+			if !ok {
+				return true
+			}
+			st, ok := cl.Type.(*ast.StructType)
+			if !ok {
+				return true
+			}
+			var decl, filled []string
+			for _, fl := range st.Fields.List {
+				tag := ""
+				if fl.Tag != nil {
+					tag = reflect.StructTag(strings.Trim(fl.Tag.Value, "`")).Get("json")
+				}
+				for _, nm := range fl.Names {
+					jn := nm.Name
+					if p := strings.Split(tag, ",")[0]; p != "" {
+						jn = p
+					}
+					decl = append(decl, fmt.Sprintf("(%s, %s)", coqStr(nm.Name), coqStr(jn)))
+				}
+			}
+			for _, el := range cl.Elts {
+				if kv, ok := el.(*ast.KeyValueExpr); ok {
+					if id, ok := kv.Key.(*ast.Ident); ok {
+						filled = append(filled, id.Name)
+					}
+				}
+			}
+			if !firstInline {
+				b.WriteString(";\n")
+			}
+			firstInline = false
+			fmt.Fprintf(&b, "  (%s, ([%s], %s))", coqStr(m.Recv), strings.Join(decl, "; "), coqStrList(filled))
+			return true
+		})
+	}
+	b.WriteString("].\n\n")
 	emit("gen_marshal_parts", mars)
 	emit("gen_unmarshal_parts", unmars)
 	emit("gen_lookup_parts", looks)
